@@ -33,7 +33,9 @@ CLASSES = (['allow', 'deny', 'unknown', 'emptyset', 'scope',
             # a name the policy FILE defines but the service never registered
             'fileonly-allow', 'fileonly-deny',
             # asked for (and unknown) BEFORE the service registered it
-            'late-allow', 'late-deny'] +
+            'late-allow', 'late-deny',
+            # a system-scoped caller on a system-only policy (right scope)
+            'sysscope-allow', 'eo-sysscope-allow', 'sysscope-deny'] +
            ['ret-' + k for k in RET] +
            # a check OBJECT needs no named rules: empty rule store
            ['eo-allow', 'eo-deny', 'eo-scope', 'eo-ret-str'] +
@@ -83,7 +85,7 @@ def expected_class(cls):
     if cls.startswith('eo-'):
         cls = cls[3:]
     if cls in ('allow', 'pw-allow', 'softscope', 'fileonly-allow',
-               'late-allow') or cls in (
+               'late-allow', 'sysscope-allow') or cls in (
             'ret-true', 'ret-one', 'ret-str', 'ret-tuple'):
         return 'allow'
     if cls in ('scope', 'scope-deny'):
@@ -91,8 +93,15 @@ def expected_class(cls):
     return 'deny'
 
 
-def make_creds(rep):
+def make_creds(rep, system=False):
     from oslo_context import context
+    if system:
+        # a system-scoped caller, spelled the way oslo.context spells it
+        if rep == 'dict':
+            return {'roles': ['r'], 'user_id': 'u', 'system_scope': 'all'}
+        ctx = context.RequestContext(user_id='u', roles=['r'],
+                                     system_scope='all')
+        return ctx if rep == 'context' else ctx.to_policy_values()
     if rep == 'dict':
         return {'roles': ['r'], 'user_id': 'u', 'project_id': 'p1'}
     ctx = context.RequestContext(user_id='u', roles=['r'], project_id='p1')
@@ -140,6 +149,10 @@ def build(P, parse_rule, cls):
                 P.RuleDefault('svc:deny', 'role:nope'),
                 P.RuleDefault('svc:scope', '@', scope_types=['system']),
                 P.RuleDefault('svc:scope-deny', 'role:nope',
+                              scope_types=['system']),
+                P.RuleDefault('svc:sysscope-allow', 'role:r',
+                              scope_types=['system']),
+                P.RuleDefault('svc:sysscope-deny', 'role:nope',
                               scope_types=['system'])]
     for k in RET:
         defaults.append(P.RuleDefault('svc:ret-' + k, 'vret:' + k))
@@ -177,11 +190,13 @@ def rule_for(P, parse_rule, cls, how):
             'scope-deny': 'role:nope', 'softscope': '@',
             'fileonly-allow': 'vret:true', 'fileonly-deny': 'vret:false',
             'late-allow': 'role:r', 'late-deny': 'role:nope',
+            'sysscope-allow': 'role:r', 'sysscope-deny': 'role:nope',
             'softscope-deny': 'role:nope',
             'pw-allow': "'secret':%(password)s and 'tok':%(auth_token)s"
             }.get(cls, 'vret:' + cls[4:])
     chk = parse_rule(text)
-    if cls in ('scope', 'scope-deny', 'softscope', 'softscope-deny'):
+    if cls in ('scope', 'scope-deny', 'softscope', 'softscope-deny',
+               'sysscope-allow', 'sysscope-deny'):
         chk.scope_types = ['system']
     return chk
 
@@ -239,7 +254,7 @@ def run(job, seed):
                     try:
                         for do_raise in (False, True):
                             target = make_target(tk)
-                            creds = make_creds(rep)
+                            creds = make_creds(rep, 'sysscope' in cls)
                             t0, c0 = snapshot(target), (
                                 snapshot(creds) if rep != 'context' else None)
                             acc.ev()
@@ -268,8 +283,8 @@ def run(job, seed):
                 for do_raise in (True, False):
                     acc.ev()
                     again = (call(P, enf, api, rule, make_target(tk),
-                                  make_creds(rep), do_raise, exc, args,
-                                  kwargs), list(CALLS))
+                                  make_creds(rep, 'sysscope' in cls),
+                                  do_raise, exc, args, kwargs), list(CALLS))
                     if _norm(again) != _norm(res[(False, do_raise)]):
                         acc.violation(
                             'order-dependent|%s|%s|%s' % (cls, how, api),
